@@ -18,7 +18,8 @@ import tempfile
 import time
 
 VERIF = os.path.dirname(os.path.dirname(os.path.abspath(__file__)))
-REPO = os.environ.get("VERIF_REPO", "/repo")
+REPO = os.environ.get("VERIF_REPO", "/repo")            # the self-test points this at a scratch worktree
+OUTDIR = os.environ.get("VERIF_OUTDIR", VERIF)          # where evidence/ and replays/ are written (self-test: scratch)
 GOENV = {
     "GOFLAGS": "-mod=mod", "GOPROXY": "off", "GOSUMDB": "off", "GOTOOLCHAIN": "local",
     "CGO_ENABLED": "0",
@@ -190,10 +191,10 @@ class Ctx:
 
     # ---------------------------------------------------------------- verdicts
     def replay_file(self, obj):
-        os.makedirs(os.path.join(VERIF, "replays"), exist_ok=True)
+        os.makedirs(os.path.join(OUTDIR, "replays"), exist_ok=True)
         blob = json.dumps(obj, sort_keys=True, indent=1)
         dig = hashlib.sha256(blob.encode()).hexdigest()[:12]
-        p = os.path.join(VERIF, "replays", "%s-%s.json" % (self.pid, dig))
+        p = os.path.join(OUTDIR, "replays", "%s-%s.json" % (self.pid, dig))
         with open(p, "w") as f:
             f.write(blob + "\n")
         return p
@@ -239,8 +240,8 @@ class Ctx:
               "coverage": cov, "assumptions": self.assumptions,
               "wall_s": round(time.time() - self.t0, 1), "violations": len(self.violations),
               "known_findings_seen": self.findings}
-        os.makedirs(os.path.join(VERIF, "evidence"), exist_ok=True)
-        with open(os.path.join(VERIF, "evidence", self.pid + ".json"), "w") as f:
+        os.makedirs(os.path.join(OUTDIR, "evidence"), exist_ok=True)
+        with open(os.path.join(OUTDIR, "evidence", self.pid + ".json"), "w") as f:
             json.dump(ev, f, indent=1, sort_keys=True)
             f.write("\n")
         for k in self.known:
